@@ -13,8 +13,12 @@ C07 model: re-encoding a received UPDATE.
 * `UpdateMessage::parse` (update.rs:894) as far as the builder's re-parse of its
   own output needs it;
 * `add_announcements_from_pdu` / `add_withdrawals_from_pdu`
-  (update_builder.rs:219-262, 802-830, 1168-1190) after the repair of K7: the
-  NLRI up to the first one that does not parse.
+  (update_builder.rs:237-286, 827-853, 1204-1226) after the repair of K7: the
+  NLRI up to the first one that does not parse; the builder state with its two
+  MP builders, `is_valid`, `calculate_pdu_length`, `finish` and `into_message`
+  for a builder that holds NLRI (`NlBuilder` ... `readdPdu`), on top of the
+  UPDATE decoder model of C01 / C02 (`Rc.Upd.parseUpdate` and the accessors
+  `announcements()` / `withdrawals()` / `mp_attr`).
 
 The typed attributes, `WireformatPathAttribute::parse` and `to_owned` are those
 of Rc/Model/Attr.lean (C04); the NLRI codecs those of Rc/Model/Nlri.lean (C05).
@@ -28,6 +32,7 @@ Core Lean only (the driver links this file).
 -/
 import Rc.Model.Attr
 import Rc.Model.Nlri
+import Rc.Model.Update
 
 namespace Rc.Reenc
 open Rc Rc.Attr
@@ -350,5 +355,282 @@ attribute is present only when NLRI were added -/
 def nlPduLen (mlen nh na nw : Nat) : Nat :=
   16 + 2 + 1 + 2 + (2 + mlen) + (if na > 0 then mpAttrLen (2 + 1 + 1 + (1 + nh) + na) else 0) +
     (if nw > 0 then mpAttrLen (3 + nw) else 0)
+
+/-! ### NLRI re-added: the builder with its two MP builders
+
+`UpdateBuilder<Vec<u8>, A>` where `A` is the NLRI type of family `f`, with
+(`ap = true`: `XAddpathNlri`) or without path identifiers.  An NLRI the builder
+holds is a pair (path id, value); the path id of a non-ADD-PATH type is never
+read nor written (0 by convention, as in `Rc.Upd.encNlris`).  The source is a
+decoded message `Rc.Upd.Msg` (C01 / C02 model). -/
+
+open Rc.Nlri (Fam codec codecAp)
+
+/-- the address octets `NextHop::compose` (update_builder.rs:1150) writes for
+`NextHop::new(A::afi_safi())` (nexthop.rs:25): all-zero addresses / route
+distinguisher; FlowSpec has `NextHop::Empty` -/
+def defaultNextHop : Fam → Bytes
+  | .v4u | .v4m | .v4mpls | .v4rt | .vpls | .evpn => List.replicate 4 0
+  | .v6u | .v6m | .v6mpls => List.replicate 16 0
+  | .v4vpn => List.replicate 12 0
+  | .v6vpn => List.replicate 24 0
+  | .v4fs | .v6fs => []
+
+/-- the octets `typed_announcements::<_, A>()` (update.rs:439) hands to
+`NlriIter::<_, _, A>::new`: the conventional section for IPv4 unicast when it is
+not empty, otherwise the NLRI of the FIRST MP_REACH_NLRI when it is of `A`'s
+family (`Ok(None)` for another family, `Err` when AFI/SAFI, next hop or the
+reserved octet are cut short).  `Rc.Upd.Msg.typedAnn` is the item list over these
+octets (`Rc.Thm.C07.typedAnn_bytes`). -/
+def typedAnnBytes (m : Rc.Upd.Msg) (f : Fam) : Outcome (Option Bytes) :=
+  if f = .v4u ∧ m.ann ≠ [] then .ok (some m.ann)
+  else
+    match m.mpAttr 14 with
+    | .ok none => .ok none
+    | .ok (some (k, r)) =>
+      if Rc.Upd.famOf k = some f then
+        match Rc.Upd.skipNextHop r with
+        | some r' => .ok (some r')
+        | none => .err
+      else .ok none
+    | .err => .err
+    | .panic => .panic
+
+/-- the same for `typed_withdrawals::<_, A>()` (update.rs:281) -/
+def typedWdBytes (m : Rc.Upd.Msg) (f : Fam) : Outcome (Option Bytes) :=
+  if f = .v4u ∧ m.wd ≠ [] then .ok (some m.wd)
+  else
+    match m.mpAttr 15 with
+    | .ok none => .ok none
+    | .ok (some (k, r)) => if Rc.Upd.famOf k = some f then .ok (some r) else .ok none
+    | .err => .err
+    | .panic => .panic
+
+/-- the loop `for a in iter { match a { Ok(a) => self.add_..(a), Err(_) => break } }`
+(update_builder.rs:838-851, 1215-1224, after the repair of K7) over
+`NlriIter::<_, _, A>`: `readd` with the codec of `A` -/
+def takeNlri (f : Fam) (ap : Bool) (bs : Bytes) : Outcome (List (Nat × f.Val)) :=
+  if ap then readd (codecAp f) bs
+  else Rc.Upd.mapO (List.map fun v => ((0 : Nat), v)) (readd (codec f) bs)
+
+/-- mirrors update_builder.rs:827 `MpReachNlriBuilder::add_announcements_from_pdu`
+(`if let Ok(Some(iter)) = source.typed_announcements::<_, A>()`: nothing is added
+on `Ok(None)` and on `Err`) -/
+def mpReachAddFromPdu (m : Rc.Upd.Msg) (f : Fam) (ap : Bool) (l : List (Nat × f.Val)) :
+    Outcome (List (Nat × f.Val)) :=
+  match typedAnnBytes m f with
+  | .ok (some bs) =>
+    match takeNlri f ap bs with
+    | .ok ns => .ok (l ++ ns)
+    | .err => .err
+    | .panic => .panic
+  | .ok none => .ok l
+  | .err => .ok l
+  | .panic => .panic
+
+/-- mirrors update_builder.rs:1204 `MpUnreachNlriBuilder::add_withdrawals_from_pdu` -/
+def mpUnreachAddFromPdu (m : Rc.Upd.Msg) (f : Fam) (ap : Bool) (l : List (Nat × f.Val)) :
+    Outcome (List (Nat × f.Val)) :=
+  match typedWdBytes m f with
+  | .ok (some bs) =>
+    match takeNlri f ap bs with
+    | .ok ns => .ok (l ++ ns)
+    | .err => .err
+    | .panic => .panic
+  | .ok none => .ok l
+  | .err => .ok l
+  | .panic => .panic
+
+/-- `UpdateBuilder { announcements, withdrawals, attributes }` (update_builder.rs:20);
+the next hop of the MP_REACH_NLRI builder is `NextHop::new(A::afi_safi())` on every
+path modelled here -/
+structure NlBuilder (f : Fam) where
+  attrs : List Decoded
+  ann : Option (List (Nat × f.Val))
+  wd : Option (List (Nat × f.Val))
+
+def isPanicItem {α : Type} : Outcome α → Bool
+  | .panic => true
+  | _ => false
+
+/-- `x.is_ok_and(|i| i.count() == 0)` on the combined iterator of
+`announcements()` / `withdrawals()` (update.rs:418 / 266): `count` walks every
+item, `Err` items included -/
+def countIsZero (x : Outcome (List (Outcome Rc.Upd.AnyNlri) × Bool)) : Outcome Bool :=
+  match x with
+  | .ok (items, _) =>
+    if items.any isPanicItem then .panic else .ok items.isEmpty
+  | .err => .ok false
+  | .panic => .panic
+
+/-- mirrors update_builder.rs:91 `UpdateBuilder::from_update_message`: the attribute map
+of the message (`PaMap::from_update_pdu`, read with the session's AS number width), no
+NLRI -/
+def fromUpdateMessage (m : Rc.Upd.Msg) (f : Fam) : Outcome (NlBuilder f) :=
+  match mapOfW m.ppi.four m.attrs with
+  | .ok mp => .ok { attrs := mp, ann := none, wd := none }
+  | .err => .err
+  | .panic => .panic
+
+/-- mirrors update_builder.rs:237 `UpdateBuilder::add_announcements_from_pdu`: the
+early-out when the message announces nothing at all, then the MP_REACH_NLRI builder
+(an existing one is extended; a new one is kept only when something was added) -/
+def addAnnouncementsFromPdu (m : Rc.Upd.Msg) (f : Fam) (ap : Bool) (b : NlBuilder f) : Outcome (NlBuilder f) :=
+  match countIsZero m.announcements with
+  | .ok true => .ok b
+  | .ok false =>
+    match b.ann with
+    | some l =>
+      match mpReachAddFromPdu m f ap l with
+      | .ok l' => .ok { b with ann := some l' }
+      | .err => .err
+      | .panic => .panic
+    | none =>
+      match mpReachAddFromPdu m f ap [] with
+      | .ok l' => if l'.isEmpty then .ok b else .ok { b with ann := some l' }
+      | .err => .err
+      | .panic => .panic
+  | .err => .err
+  | .panic => .panic
+
+/-- mirrors update_builder.rs:264 `UpdateBuilder::add_withdrawals_from_pdu` -/
+def addWithdrawalsFromPdu (m : Rc.Upd.Msg) (f : Fam) (ap : Bool) (b : NlBuilder f) : Outcome (NlBuilder f) :=
+  match countIsZero m.withdrawals with
+  | .ok true => .ok b
+  | .ok false =>
+    match b.wd with
+    | some l =>
+      match mpUnreachAddFromPdu m f ap l with
+      | .ok l' => .ok { b with wd := some l' }
+      | .err => .err
+      | .panic => .panic
+    | none =>
+      match mpUnreachAddFromPdu m f ap [] with
+      | .ok l' => if l'.isEmpty then .ok b else .ok { b with wd := some l' }
+      | .err => .err
+      | .panic => .panic
+  | .err => .err
+  | .panic => .panic
+
+/-- `iter().fold(0, |sum, w| sum + w.compose_len())` over NLRI of type `A` -/
+def nlriLen (f : Fam) (ap : Bool) (l : List (Nat × f.Val)) : Nat :=
+  if ap then clenSum (codecAp f) l else clenSum (codec f) (l.map (·.2))
+
+/-- `for a in &self.announcements { a.compose(target)? }` -/
+def nlriBytes (f : Fam) (ap : Bool) (l : List (Nat × f.Val)) : Outcome Bytes :=
+  if ap then Rc.Nlri.encAll (codecAp f) l else Rc.Nlri.encAll (codec f) (l.map (·.2))
+
+/-- mirrors update_builder.rs:938 `MpReachNlriBuilder::value_len` -/
+def reachValueLen (f : Fam) (ap : Bool) (l : List (Nat × f.Val)) : Nat :=
+  2 + 1 + 1 + (1 + (defaultNextHop f).length) + nlriLen f ap l
+
+/-- mirrors update_builder.rs:1249 `MpUnreachNlriBuilder::value_len` -/
+def unreachValueLen (f : Fam) (ap : Bool) (l : List (Nat × f.Val)) : Nat := 3 + nlriLen f ap l
+
+def optReachLen (f : Fam) (ap : Bool) : Option (List (Nat × f.Val)) → Nat
+  | some l => mpAttrLen (reachValueLen f ap l)
+  | none => 0
+
+def optUnreachLen (f : Fam) (ap : Bool) : Option (List (Nat × f.Val)) → Nat
+  | some l => mpAttrLen (unreachValueLen f ap l)
+  | none => 0
+
+/-- mirrors update_builder.rs:363 `calculate_pdu_length` (`mlen` = `attributes.bytes_len()`) -/
+def calcPduLen (f : Fam) (ap : Bool) (b : NlBuilder f) (mlen : Nat) : Nat :=
+  16 + 2 + 1 + 2 + (2 + mlen) + optReachLen f ap b.ann + optUnreachLen f ap b.wd
+
+/-- mirrors update_builder.rs:341 `is_valid`; `true` is `Ok(())` -/
+def nlIsValid {f : Fam} (b : NlBuilder f) : Bool :=
+  if (match b.ann with | some l => l.isEmpty | none => false) then false
+  else if (match b.wd with | some l => l.isEmpty | none => false) &&
+      ((match b.ann with | some l => !l.isEmpty | none => false) || !b.attrs.isEmpty) then false
+  else true
+
+/-- mirrors path_attributes.rs:933 `Attribute::compose_header` for the two MP builders
+(`FLAGS` = optional, non-transitive; extended length when `value_len() > 255`) -/
+def mpHeader (code : UInt8) (n : Nat) : Bytes :=
+  if n > 255 then [0x90, code] ++ be16 (min n 65535) else [0x80, code, UInt8.ofNat (min n 255)]
+
+/-- `A::afi_safi().as_bytes()` (afisafi.rs:210) -/
+def afiSafiBytes (f : Fam) : Bytes := be16 (Rc.Upd.famCode f).1 ++ [UInt8.ofNat (Rc.Upd.famCode f).2]
+
+/-- mirrors `Attribute::compose` of `MpReachNlriBuilder` (compose_value: update_builder.rs:944) -/
+def reachAttr (f : Fam) (ap : Bool) (l : List (Nat × f.Val)) : Outcome Bytes :=
+  match nlriBytes f ap l with
+  | .ok nb =>
+    .ok (mpHeader 14 (reachValueLen f ap l) ++ (afiSafiBytes f ++
+      (UInt8.ofNat (defaultNextHop f).length :: (defaultNextHop f ++ (0 :: nb)))))
+  | .err => .err
+  | .panic => .panic
+
+/-- mirrors `Attribute::compose` of `MpUnreachNlriBuilder` (compose_value: update_builder.rs:1261) -/
+def unreachAttr (f : Fam) (ap : Bool) (l : List (Nat × f.Val)) : Outcome Bytes :=
+  match nlriBytes f ap l with
+  | .ok nb => .ok (mpHeader 15 (unreachValueLen f ap l) ++ (afiSafiBytes f ++ nb))
+  | .err => .err
+  | .panic => .panic
+
+def optAttr {f : Fam} (g : List (Nat × f.Val) → Outcome Bytes) : Option (List (Nat × f.Val)) → Outcome Bytes
+  | some l => g l
+  | none => .ok []
+
+/-- mirrors update_builder.rs:650 `finish`: header with `calculate_pdu_length` (the
+`u16::try_from(..).unwrap()` are the panics), an empty withdrawn-routes section, the
+attribute length from `bytes_len()` and the two `compose_len()`, then MP_REACH_NLRI,
+MP_UNREACH_NLRI and the attribute map in key order; no conventional NLRI -/
+def nlFinish (f : Fam) (ap : Bool) (b : NlBuilder f) : Outcome Bytes :=
+  match lenList b.attrs with
+  | .ok ml =>
+    let total := calcPduLen f ap b ml
+    if total > 65535 then .panic else
+    let alen := ml + optReachLen f ap b.ann + optUnreachLen f ap b.wd
+    if alen > 65535 then .panic else
+    match optAttr (reachAttr f ap) b.ann, optAttr (unreachAttr f ap) b.wd, encList b.attrs with
+    | .ok r, .ok u, .ok o =>
+      .ok (List.replicate 16 (0xff : UInt8) ++ (be16 total ++ (2 :: (be16 0 ++ ([] ++ (be16 alen ++ ((r ++ (u ++ o)) ++ [])))))))
+    | .panic, _, _ => .panic
+    | _, .panic, _ => .panic
+    | _, _, .panic => .panic
+    | _, _, _ => .err
+  | .err => .err
+  | .panic => .panic
+
+/-- mirrors update_builder.rs:311 `into_message`: `is_valid`, the `MAX_PDU` test, `finish`,
+and `UpdateMessage::from_octets(.., session_config)` on the octets written -/
+def nlIntoMessage (cfg : Rc.Upd.Cfg) (f : Fam) (ap : Bool) (b : NlBuilder f) : Outcome Bytes :=
+  if !nlIsValid b then .err else
+  match lenList b.attrs with
+  | .ok ml =>
+    if calcPduLen f ap b ml > MAX_PDU then .err else
+    match nlFinish f ap b with
+    | .ok pdu =>
+      match Rc.Upd.parseUpdate cfg pdu with
+      | .ok _ => .ok pdu
+      | .err => .err
+      | .panic => .panic
+    | .err => .err
+    | .panic => .panic
+  | .err => .err
+  | .panic => .panic
+
+/-- the builder after `from_update_message` + `add_announcements_from_pdu` +
+`add_withdrawals_from_pdu` on the same message -/
+def readdBuilder (m : Rc.Upd.Msg) (f : Fam) (ap : Bool) : Outcome (NlBuilder f) :=
+  match fromUpdateMessage m f with
+  | .ok b0 =>
+    match addAnnouncementsFromPdu m f ap b0 with
+    | .ok b1 => addWithdrawalsFromPdu m f ap b1
+    | .err => .err
+    | .panic => .panic
+  | .err => .err
+  | .panic => .panic
+
+/-- ... and `into_message(&session_config)`: the PDU that carries the message's attributes
+and its NLRI of family `f` again -/
+def readdPdu (cfg : Rc.Upd.Cfg) (m : Rc.Upd.Msg) (f : Fam) (ap : Bool) : Outcome Bytes :=
+  match readdBuilder m f ap with
+  | .ok b => nlIntoMessage cfg f ap b
+  | .err => .err
+  | .panic => .panic
 
 end Rc.Reenc
